@@ -3,3 +3,8 @@
 pub mod report;
 pub mod spans;
 pub use report::*;
+pub mod support;
+pub mod tov;
+pub use tov::ToVal;
+pub mod run;
+pub mod explore;
